@@ -83,6 +83,12 @@ def pred(item, c):
         e1 = _err(J @ _H(J), np.broadcast_to(np.eye(2), J.shape))
         e2 = _err(_H(J) @ J, np.broadcast_to(np.eye(2), J.shape))
         return max(e1, e2) <= PTOL, f'{c["kind"]} retarder: max|J J^H - 1| = {e1!r}, max|J^H J - 1| = {e2!r}'
+    if item == 'retarder_compose':
+        a, b, ab = (P.linear_retarder(c['d1'], c['theta']), P.linear_retarder(c['d2'], c['theta']),
+                    P.linear_retarder(c['d1'] + c['d2'], c['theta']))
+        e = _err(a @ b, ab)
+        tol = PTOL * max(1.0, abs(c['d1']) + abs(c['d2']))      # the phase d1 + d2 carries the rounding of the sum
+        return e <= tol, f'retarder(d1) retarder(d2) vs retarder(d1 + d2) at theta = {c["theta"]!r}: {e!r}'
     if item == 'wave_plates':
         h, q = P.half_wave_plate(c['theta']), P.quarter_wave_plate(c['theta'])
         e1, e2 = _err(h @ h, np.eye(2)), _err(q @ q, h)
@@ -442,6 +448,7 @@ def correspondence(ctx):
                                 'rotate': float(rng.choice([0.0, _angle(rng)]))}, tag=f'vortex{S}')
         _check(ctx, 'polarizer', {'theta': th, 'phi': _angle(rng)})
         _check(ctx, 'wave_plates', {'theta': th})
+        _check(ctx, 'retarder_compose', {'d1': de, 'd2': _ret(rng), 'theta': th})
         ro = _angle(rng)
         _check(ctx, 'vortex_rotate', {'charge': q, 'azimuth': az.tolist(), 'retardance': _ret(rng), 'rotate': ro},
                nontrivial=(ro != 0), tag=f'vortex{S}')
@@ -513,13 +520,7 @@ def correspondence(ctx):
     finally:
         for k, v in saved.items():
             setattr(propagation, k, v)
-    # API limits observed (not part of the statement; recorded for the maintainers)
-    try:
-        P.linear_retarder(1.0, np.array([0.1, 0.2]), shape=(2,))
-        ctx.notes.append('linear_retarder now accepts a batched theta')
-    except Exception:
-        ctx.notes.append('linear_retarder / linear_diattenuator reject a batched theta (rotation built without shape): '
-                         'batched orientation is only available through jones_rotation_matrix(theta, shape) and the vortex retarder')
+
 
 
 # ------------------------------------------------------------------------------------------------
@@ -533,6 +534,8 @@ def _small_scope():
         for phi in (0.0, 0.7):
             yield 'polarizer', {'theta': th, 'phi': phi}
         yield 'wave_plates', {'theta': th}
+        for d1, d2 in ((1.0, 2.0), (8.0, 0.5), (math.pi, math.pi), (100.0, -3.0)):
+            yield 'retarder_compose', {'d1': d1, 'd2': d2, 'theta': th}
         yield 'rotate_conj', {'kind': 'retarder', 'param': 1.0, 'theta': th}
         yield 'rotate_conj', {'kind': 'diattenuator', 'param': 0.25, 'theta': th}
     for q in (1, 2):
@@ -615,6 +618,8 @@ def replay(inp):
     print('replaying', item, c)
     if item in _CONS_TO_PRED:
         item, c = 'unitary', {**c, 'kind': _CONS_TO_PRED[item]}
+    elif item == 'linear_retarder' and False:
+        pass
     elif item in ('half_wave_plate', 'quarter_wave_plate'):
         item, c = 'wave_plates', {'theta': c['theta']}
     elif item == 'vector_vortex_retarder':
@@ -655,12 +660,18 @@ MANIFEST_ENTRY = {
              'products of jones_rotation_matrix, linear_retarder, linear_diattenuator, vector_vortex_retarder, pauli_spin_matrix; '
              'wrapper arguments; the 4x4 U literal; pauli_coefficients formulas; adapter read/write order; structural facts on '
              '_empty_jones, jones_to_mueller, broadcast_kron, supported_propagation_funcs. MODELLED AND COMPARED (1e-9): all '
-             'constructors, Mueller matrices and Pauli coefficients on random parameters. CORRESPONDENCE ONLY: batched = element-by-'
+             'constructors, Mueller matrices and Pauli coefficients on random parameters. Also proved: vortex(rotate) = R(-rotate) vortex(0) R(rotate); with Real.cos / Real.sin / Complex.exp the Mueller matrix of every '
+             'linear retarder and of every vortex retarder (any charge) is orthogonal with M00 = 1; exp(i pi) = -1, exp(i pi/2) = i for the '
+             'translated wave-plate retardances, HWP^2 = 1, QWP^2 = HWP; translated default arguments. Structural facts are three-valued '
+             '(false = recognised and wrong). CORRESPONDENCE ONLY (no shape / dtype / in-place semantics in the Lean model): batched = element-by-'
              'element for leading shapes (), (5,), (3,4), (2,1,3); polarised focus / unfocus / *_fixed_sampling / angular_spectrum '
              '= per-component propagation (generic, nearly symmetric and weak Jones pupils, each component at 1e-9 of its own scale); '
-             'vortex(rotate) = R(-rotate) vortex(0) R(rotate) on the real code; apply_polarization_optic.'),
+             'vortex(rotate) = R(-rotate) vortex(0) R(rotate), retarder(d1) retarder(d2) = retarder(d1+d2), defaults omitted = documented defaults, '
+             'purity (same argument arrays twice: same answer, arrays untouched) of the array-taking functions, batched orientation / '
+             'diattenuation / jones_to_mueller(broadcast=False), adapter with keyword-only and no extra arguments, all on the real code; '
+             'apply_polarization_optic (2-D fields).'),
     'note': ('Trusted: Lean kernel + standard axioms; translator (incl. reading jones_rotation_matrix(-theta) as (cos theta, -sin theta)); '
              'NumPy matmul/einsum/kron/inv; IEEE rounding. Not covered: polarisation-vector helpers (circular_pol_vector(shape=...) '
-             'raises IndexError - outside the statement); linear_retarder/diattenuator reject a batched theta (API limit, noted). '
-             'vector_vortex_retarder scales the caller\'s theta array in place (noted, not part of the statement).'),
+             'raises IndexError - outside the statement); apply_polarization_optic for ndim != 2 (docstring and code disagree; outside the '
+             'statement); rejection of alpha outside [0,1] (outside the quantifier).'),
 }
